@@ -110,7 +110,7 @@ def apply(op, args):
 
 def unary_ops():
     ops = [{"name": n} for n in UNARY_METHODS]
-    ops += [{"name": "Log", "f": 2.5}, {"name": "SinCosS"}, {"name": "SinCosC"}, {"name": "Powi", "i": 3}, {"name": "Powi", "i": -2}, {"name": "Powf", "f": 2.5},
+    ops += [{"name": "Log", "f": 2.5}, {"name": "Log", "f": 1.7}, {"name": "SinCosS"}, {"name": "SinCosC"}, {"name": "Powi", "i": 3}, {"name": "Powi", "i": -2}, {"name": "Powf", "f": 2.5},
             {"name": "PowInt", "i": 2}, {"name": "PowInt", "i": 5}, {"name": "PowInt", "i": 0}, {"name": "PowInt", "i": 2**32 + 2}, {"name": "PowInt", "i": -(2**31) - 1}, {"name": "PowInt", "i": 2**31 - 1}, {"name": "PowFloat", "f": 2.0}, {"name": "PowFloat", "f": -1.5}, {"name": "PowFloat", "f": 0.5}, {"name": "PowFloat", "f": 1.0}, {"name": "PowFloat", "f": 0.0}, {"name": "PowFloat", "f": 3.0}, {"name": "PowFloat", "f": -1.0}, {"name": "Neg"},
             {"name": "AddF", "f": 0.75}, {"name": "SubF", "f": 0.75}, {"name": "MulF", "f": -1.5}, {"name": "DivF", "f": 4.0}, {"name": "AddI", "i": 2}, {"name": "MulI", "i": 3},
             {"name": "RAddF", "f": 0.75}, {"name": "RSubF", "f": 0.75}, {"name": "RMulF", "f": -1.5}, {"name": "RDivF", "f": 4.0},
